@@ -4,7 +4,7 @@ SPEC = {
     "lean_modules": ["SemaModel.C05.Props"],
     "lean_dirs": ["SemaModel/C05"],
     "harness": "c05",
-    "harness_args": {"quick": ["-n", 300, "-q", 6], "thorough": ["-n", 3000, "-q", 8]},
+    "harness_args": {"quick": ["-n", 300, "-q", 6], "thorough": ["-n", 6000, "-q", 8]},
     "level": "proof",
     "tie": "T3: the hand-written model of shard/index/text/text.go (+ the text arm of dispatch.go) is run by the Lean driver on the same batches and queries as a real shard (bbolt file and memory backend alternate); after every batch the real text index bucket (_numDocuments, t<term>s, d<id>) is dumped and compared with the model state, every query answer (ids, order, _score/_hybridScore bit patterns) is compared with the model's answer, the float32 scores being handed to the model as opaque patterns taken from the real code. The property itself is also evaluated directly on every real answer against a corpus kept by the harness and the real bleve analyser.",
     "required_theorems": [
